@@ -156,6 +156,12 @@ func (ph *pushHandler) bodyDerived(r *Roles, v ssa.Value, depth int) bool {
 	return false
 }
 
+// detectorDerived: the value is the result of the media type detector applied to the received bytes.
+func (ph *pushHandler) detectorDerived(r *Roles, v ssa.Value) bool {
+	call, _ := an.CallOf(an.Strip(v))
+	return call != nil && an.IsFunc(call, r.TypesPath, "MediaTypeDetect") && len(call.Call.Args) == 1 && an.Origin(call.Call.Args[0]) == ph.hs.bytes
+}
+
 // declaredDerived: the value is the media type the request declared (or a predicate applied to it).
 func (ph *pushHandler) declaredDerived(r *Roles, v ssa.Value, depth int) bool {
 	if depth > 3 || ph.mtVal == nil {
@@ -290,8 +296,8 @@ func analysePush(c *core.Ctx, r *Roles, ph *pushHandler) map[string][2]string {
 						case token.NEQ:
 							eqSucc = 1
 						}
-						if s2, isStr := an.ConstString(pair[1]); isStr && s2 == "" && eqSucc == succ {
-							s.bits |= bMTCmp // the body has no type of its own
+						if s2, isStr := an.ConstString(pair[1]); isStr && s2 == "" && eqSucc == succ && ph.detectorDerived(r, pair[0]) {
+							s.bits |= bMTCmp // the detector cannot tell what the body is: nothing to compare
 						}
 						if ph.declaredDerived(r, pair[1], 0) && eqSucc == succ {
 							s.bits |= bMTCmp
